@@ -1,6 +1,9 @@
 """C11 -- a linear-relation literal means exactly its relation.
 
 1. proofs: props/Properties_C11.v (literal meaning for fresh / shared / constant literals, new_eq, solution set unchanged).
+2b. queries: equates / bounds / lb / ub / value on pairs of expressions over interval classes (equal, disjoint, touching closed /
+   by an infinitesimal, overlapping, strictly nested both ways, constants, infinite ends), compared with the model and judged by
+   exact interval arithmetic in python.
 2. tie: the trace differential of the LRA model (see c09.py) on request-heavy scripts: returned literal, number of
    propositional variables consumed, slack identity (through the assertion table), bounds, tableau after every request.
 3. semantic probe on the REAL code: the literal (and its negation) is assumed together with x_i = q_i for rational points
@@ -86,7 +89,7 @@ def run(ctx):
     cov["semantic_probe"] = st
     # ---- differential --------------------------------------------------------------------------------------------
     n = 800 if not ctx.thorough else 10000
-    scs = [T.gen_requests(rng) if rng.random() < 0.7 else T.gen_scenario(rng, "mixed") for _ in range(n)]
+    scs = [T.gen_queries(rng) if (r := rng.random()) < 0.3 else T.gen_requests(rng) if r < 0.8 else T.gen_scenario(rng, "mixed") for _ in range(n)]
     cdir = os.path.join(vlib.VERIF, "corpus", "C11")
     corp = []
     if os.path.isdir(cdir):
@@ -130,6 +133,14 @@ def run(ctx):
             mism += 1
             if first is None:
                 first = (si, d)
+    # the query functions (bounds / lb / ub / value / equates), judged independently of the model by exact interval arithmetic
+    nq, badq = T.judge_queries(impl)
+    cov["queries_judged"] = nq
+    cov["query_interval_classes"] = dict(sorted(T.judge_queries.classes.items()))
+    for b in badq[:3]:
+        bad += 1
+        report(ctx, "lra:query:" + b["event"].split()[1], {"kind": "query-answer-differs-from-exact-interval-arithmetic", "script": scripts[b["scenario"]],
+                                                           "event": b["event"], "expected": b["expected"], "implementation": b["got"]})
     if jfail:
         report(ctx, "lra:k2", {"kind": "k2-checker-rejects-implementation-output", "lines": jfail[:5]})
     if first is not None and not bad and not jfail:
